@@ -216,7 +216,26 @@ fn judge<N: Elem>(op: &str, a: &Array<N>, real: Result<(Vec<usize>, Vec<u64>), S
     Some(Verdict::Match(expected.to_string()))
 }
 
+/// ops that reach their elements through the broadcasting layer (`broadcast` / `broadcast_h2` / `zip` against a one-element
+/// or equal-shape operand) instead of `map`.  `is_broadcastable` refuses zero-length axes by design (`dim == 0` arm), so
+/// on arrays without elements these ops answer `Err(BroadcastShapeMismatch)` where the `map`-based ops answer the empty
+/// array.  Whether a zero-length operand is stretchable is C03's question; C05 leaves that region open (not compared).
+const OPS_BROADCAST_ROUTED: &[&str] = &["rint", "round0", "round2", "around1", "log"];
+
+fn open_if_empty(v: Option<Verdict>, n: usize) -> Option<Verdict> {
+    match v {
+        Some(Verdict::Mismatch { observed, .. }) if n == 0 && class_of(&observed) == "err" => Some(Verdict::Open(observed)),
+        other => other,
+    }
+}
+
 fn exec_unary(args: &[&str], expected: &str) -> Option<Verdict> {
+    let n: usize = parse_usize_list(args[2]).iter().product();
+    let v = exec_unary_inner(args, expected);
+    if OPS_BROADCAST_ROUTED.contains(&args[0]) { open_if_empty(v, n) } else { v }
+}
+
+fn exec_unary_inner(args: &[&str], expected: &str) -> Option<Verdict> {
     let (op, ty, shape, cls) = (args[0], args[1], parse_usize_list(args[2]), args[3]);
     let off: usize = args[4].parse().ok()?;
     let float_op = OPS_FLOAT.contains(&op);
@@ -291,8 +310,9 @@ fn exec(op: &str, args: &[&str], expected: &str) -> Option<Verdict> {
         "collect" => { let l = parse_i64_list(args[0]); Some(compare_default(guarded(|| { let a: Array<i64> = l.into_iter().collect(); format!("ok {}", show_arr(&a)) }), expected)) }
         "zip" => {
             let (a, b) = (parse_arr_i64(args[0]), parse_arr_i64(args[1]));
-            Some(compare_default(guarded(|| show_res(&a.zip(&b), |z| format!("{}:{}", show_list(&z.get_shape().unwrap()),
-                show_list(&z.get_elements().unwrap().iter().map(|t| format!("{}/{}", t.0, t.1)).collect::<Vec<_>>())))), expected))
+            let n = a.len().unwrap();
+            open_if_empty(Some(compare_default(guarded(|| show_res(&a.zip(&b), |z| format!("{}:{}", show_list(&z.get_shape().unwrap()),
+                show_list(&z.get_elements().unwrap().iter().map(|t| format!("{}/{}", t.0, t.1)).collect::<Vec<_>>())))), expected)), n)
         }
         "unary" => exec_unary(args, expected),
         "frexp" | "ldexp" | "roundtrip" => exec_float(op, args, expected),
